@@ -98,6 +98,18 @@ func TestC34(t *testing.T) {
 			picks[rapid.SampledFrom(cand).Draw(t, "k1")] = true
 		}
 		addLeftovers := rapid.Bool().Draw(t, "syntheticLeftovers")
+		const setAside = "WALFile.1000000000000000003.walfile.tmp"
+		keptAside := func(d *wl.Dump) error {
+			if !addLeftovers {
+				return nil
+			}
+			for _, f := range d.WALFiles {
+				if f == setAside {
+					return nil
+				}
+			}
+			return fmt.Errorf("the WAL file set aside by an earlier start-up (%s) was picked up again: files now %v", setAside, d.WALFiles)
+		}
 		for k1 := range picks {
 			sa, _ := splitSpecs(cr, k1)
 			base := append([]crashfs.Event{}, cr.Events[:k1]...)
@@ -107,6 +119,14 @@ func TestC34(t *testing.T) {
 					crashfs.Event{Kind: crashfs.EvCreate, Path: "WALFile.1000000000000000001.walfile"},
 					crashfs.Event{Kind: crashfs.EvCreate, Path: "WALFile.1000000000000000002.walfile"},
 					crashfs.Event{Kind: crashfs.EvWrite, Path: "WALFile.1000000000000000002.walfile", Off: 0, Data: []byte{2, 1, 1, 0, 0}})
+				// and a file that an earlier start-up set aside as unreplayable (*.walfile.tmp): a copy of
+				// the crashed instance's WAL under that name. It must never be picked up again.
+				for _, e := range cr.Events[:k1] {
+					if strings.HasSuffix(e.Path, ".walfile") && (e.Kind == crashfs.EvCreate || e.Kind == crashfs.EvWrite || e.Kind == crashfs.EvTruncate) {
+						e.Path = setAside
+						base = append(base, e)
+					}
+				}
 			}
 			dir := hx.ScratchDir("c34")
 			root := filepath.Join(dir, "root")
@@ -127,6 +147,9 @@ func TestC34(t *testing.T) {
 				fail(-1, "restart fails: "+restartFailure(res2))
 			}
 			if err := checkWALHygiene(res2.Dump); err != nil {
+				fail(len(ev2), err.Error())
+			}
+			if err := keptAside(res2.Dump); err != nil {
 				fail(len(ev2), err.Error())
 			}
 			// trace invariants of the restart itself
@@ -204,6 +227,9 @@ func TestC34(t *testing.T) {
 					fail(k2, "a further restart changes the data (a WAL was replayed again): "+d)
 				}
 				if err := checkWALHygiene(r4.Dump); err != nil {
+					fail(k2, err.Error())
+				}
+				if err := keptAside(r4.Dump); err != nil {
 					fail(k2, err.Error())
 				}
 			}
